@@ -179,10 +179,10 @@ func VerifH_C02_QueryTree() {
 	var top verifQ
 	switch rt.Choice("shape", 4) {
 	case 0: // conjunction of two leaves
-		a, b := x.leaf("leaf"), x.leaf("leaf")
+		a, b := x.leaf("leaf"), x.term(1)
 		top = verifQ{NewConjunctionQuery([]Query{a.q, b.q}), a.bits & b.bits}
 	case 1: // disjunction with minimum over three leaves
-		a, b, c := x.leaf("leaf"), x.leaf("leaf"), x.term(1)
+		a, b, c := x.leaf("leaf"), x.term(2), x.term(1)
 		min := rt.Choice("min", 4)
 		dq := NewDisjunctionQuery([]Query{a.q, b.q, c.q})
 		dq.SetMin(float64(min))
@@ -203,7 +203,7 @@ func VerifH_C02_QueryTree() {
 			any = true
 		}
 		if rt.Choice("has_should", 2) == 1 {
-			a, b := x.leaf("leaf"), x.term(1)
+			a, b := x.term(0), x.term(1)
 			bq.AddShould(a.q, b.q)
 			min := rt.Choice("min", 3)
 			bq.SetMinShould(float64(min))
@@ -217,7 +217,7 @@ func VerifH_C02_QueryTree() {
 			any = true
 		}
 		if rt.Choice("has_must_not", 2) == 1 {
-			a := x.leaf("leaf")
+			a := []verifQ{x.term(2), {NewMatchNoneQuery(), 0}, {NewMatchAllQuery(), x.all()}}[rt.Choice("must_not_leaf", 3)]
 			bq.AddMustNot(a.q)
 			// a must-not clause that can match nothing does not make the query match everything
 			if _, none := a.q.(*MatchNoneQuery); !none {
@@ -226,7 +226,7 @@ func VerifH_C02_QueryTree() {
 			}
 		}
 		if rt.Choice("has_filter", 2) == 1 {
-			a := x.leaf("leaf")
+			a := []verifQ{x.term(0), {NewDocIDQuery([]string{"d1", "d0"}), uint8(0b011) & x.all()}}[rt.Choice("filter_leaf", 2)]
 			bq.AddFilter(a.q)
 			bits &= a.bits
 			any = true
